@@ -114,7 +114,8 @@ static void *fi_cx_alloc(void *ctx, size_t len) { return fi_alloc(len, 0); }
 static void *fi_cx_realloc(void *ctx, void *ptr, size_t len) { return fi_realloc(ptr, len); }
 static void fi_cx_free(void *ctx, void *ptr)
 {
-	if (!ptr) return;
+	/* CxOps contract: c_free never gets NULL (cx_free filters it); tolerating it would hide a regression */
+	if (!ptr) { fprintf(stderr, "fi: c_free called with NULL (cx_free must filter it)\n"); abort(); }
 	if (!fi_release(ptr)) { fprintf(stderr, "fi: cx_free of a block that is not allocated\n"); abort(); }
 }
 static const struct CxOps fi_ops = { fi_cx_alloc, fi_cx_realloc, fi_cx_free, NULL };
